@@ -819,10 +819,24 @@ def _compact_domains(ctx: Ctx) -> None:
     cparams = new.params[1:]               # name, bin_width, bin_height, matrix
     # ---- constructor: quantity -> (lo, hi)
     unpack: list[str] = []
+    # the local that holds one row of the matrix parameter
+    row_names = set()
+    for n in ast.walk(new.node):
+        if isinstance(n, (ast.Assign, ast.AnnAssign)) and isinstance(
+                getattr(n, "value", None), ast.Subscript) and isinstance(
+                n.value.value, ast.Name) and \
+                n.value.value.id == cparams[-1]:
+            tg_ = n.targets[0] if isinstance(n, ast.Assign) else n.target
+            if isinstance(tg_, ast.Name):
+                row_names.add(tg_.id)
+        if isinstance(n, ast.For) and isinstance(
+                n.iter, ast.Name) and n.iter.id == cparams[-1] and \
+                isinstance(n.target, ast.Name):
+            row_names.add(n.target.id)
     for n in ast.walk(new.node):
         if isinstance(n, ast.Assign) and isinstance(
                 n.targets[0], ast.Tuple) and isinstance(
-                n.value, ast.Name) and n.value.id == "row":
+                n.value, ast.Name) and n.value.id in row_names:
             unpack = [t.id for t in n.targets[0].elts
                       if isinstance(t, ast.Name)]
     ren_c = {p: p for p in cparams}
@@ -1350,32 +1364,34 @@ def _first_line_forms(ctx: Ctx) -> None:
     # ---- game plan
     gp = repo.func("moptipyapps.ttp.game_plan", "GamePlan.__str__")
     gs = repo.func("moptipyapps.ttp.game_plan_space", "GamePlanSpace.from_str")
-    src = ast.unparse(gp.node)
     first_loop = next((n for n in ast.walk(gp.node)
                        if isinstance(n, ast.For)), None)
+    from sa.srcmodel import inline_locals as _inl
+    csv_val = repo.const(gp.module, ast.Name(id="CSV_SEPARATOR"))
     ok_w = first_loop is not None and ast.unparse(
-        first_loop.iter) == "self.flatten()" and "sep = csv" in src and \
-        "csv: Final[str] = CSV_SEPARATOR" in src
+        first_loop.iter) == "self.flatten()" and isinstance(csv_val, str)
     if ok_w:
         kv = ast.unparse(first_loop.target)
         seq = [ast.unparse(b).replace(" ", "") for b in first_loop.body]
         wname = next((x.split(".write(")[0] for x in seq
                       if ".write(" in x), "?")
+        # the separator variable: re-assigned in the loop to (a local
+        # holding) CSV_SEPARATOR, and "" before the loop
         sepv = next((ast.unparse(b.targets[0]) for b in first_loop.body
-                     if isinstance(b, ast.Assign)
-                     and ast.unparse(b.value) == "csv"), None)
-        blk0 = next(b for b in _blocks(gp.node) if first_loop in b)
-        pre0 = blk0[:blk0.index(first_loop)]
+                     if isinstance(b, ast.Assign) and isinstance(
+                         b.targets[0], ast.Name)
+                     and repo.const(gp.module, _inl(
+                         gp.node, b.value, keep={ast.unparse(
+                             b.targets[0])})) == csv_val), None)
         sep_init = [b for b in ast.walk(gp.node) if isinstance(
             b, (ast.Assign, ast.AnnAssign)) and b.value is not None and
             ast.unparse(b.targets[0] if isinstance(b, ast.Assign)
                         else b.target) == (sepv or "?")
             and b.lineno < first_loop.lineno]
-        ok_w = sepv is not None and seq == [
-            f"{wname}.write({sepv})", f"{wname}.write(str({kv}))",
-            f"{sepv}=csv"] and bool(sep_init) and ast.unparse(
-            sep_init[-1].value) in ("''", '""')
-        del pre0
+        ok_w = sepv is not None and len(seq) == 3 and seq[:2] == [
+            f"{wname}.write({sepv})", f"{wname}.write(str({kv}))"] and \
+            seq[2].startswith(f"{sepv}=") and bool(sep_init) and repo.const(
+                gp.module, sep_init[-1].value) == ""
     # the writer ends the first line before anything else
     after = None
     if first_loop is not None:
